@@ -55,6 +55,7 @@ type Opts struct {
 	ChownUID   bool
 	ChownGID   bool
 	Events     s3event.S3EventSender
+	Debug      bool            // --debug
 	AccessLog  bool            // S3 and admin access logs written to files below Dir (as with --access-log / --admin-access-log)
 	Backend    backend.Backend // if non-nil, used instead of a fresh posix backend
 	IAM        auth.IAMService // if non-nil, used instead of a fresh internal IAM
@@ -160,6 +161,9 @@ func New(o Opts) (*GW, error) {
 	opts := []s3api.Option{s3api.WithQuiet(), s3api.WithAdminServer()}
 	if o.ReadOnly {
 		opts = append(opts, s3api.WithReadOnly())
+	}
+	if o.Debug {
+		opts = append(opts, s3api.WithDebug())
 	}
 	var s3l, adml s3log.AuditLogger
 	if o.AccessLog {
